@@ -177,9 +177,9 @@ def coq_assumptions(prop_id, theorems):
 # ----------------------------------------------------------------------------------------------
 # OCaml driver (extracted model + util + per-property driver, concatenated)
 # ----------------------------------------------------------------------------------------------
-def build_driver(prop_id):
+def build_driver(prop_id, gen=None):
     p = prop_id.lower()
-    parts = [os.path.join(OCAML, "gen", p + ".ml"), os.path.join(OCAML, "util.ml"),
+    parts = [os.path.join(OCAML, "gen", (gen or p) + ".ml"), os.path.join(OCAML, "util.ml"),
              os.path.join(OCAML, p + "_driver.ml")]
     for x in parts:
         if not os.path.exists(x):
